@@ -164,6 +164,12 @@ def ddmin(ctx, lines, pred, budget=60):
 def shrink(ctx, f):
     if len(f.case.lines) <= 1:
         return f.case.lines
+    mod = ctx.get('mod')
+    if mod is not None and hasattr(mod, 'minimal'):
+        # family-specific guess at the minimal reproducer (e.g. the axis declaration + the failing probe)
+        cand = mod.minimal(f)
+        if cand and case_fails_same(ctx, cand, f.kind, f.rule(), f.tag()):
+            return cand
     # cut after the failing line first
     lines = f.case.lines[:f.line_no + 1]
     rule, tag, kind = f.rule(), f.tag(), f.kind
@@ -210,7 +216,7 @@ def main(mod, argv):
     pid = mod.ID
     t0 = time.time()
     tier = a.tier if a.tier in ('quick', 'thorough') else 'quick'
-    ctx = {'seed': a.seed, 'tier': tier, 'pid': pid}
+    ctx = {'seed': a.seed, 'tier': tier, 'pid': pid, 'mod': mod}
     ctx['rundir'] = os.path.join(B.WORK, 'run-%s-%d' % (pid, os.getpid()))
     out_lines = []
     violations = []      # (replay path, suffix)
